@@ -205,6 +205,9 @@ fn unk_key(name: &str) -> Option<&'static str> {
         "p_kindx" => "kindx",
         "p_created_at_" => "created_at_",
         "p_contentx" => "contentx",
+        "esc_long_u" => "client_\\u006eame_and_version",
+        "esc_long_tab" => "seventeen\\tbytes no",
+        "esc_long_quote" => "a rather long \\\"quoted\\\" member name",
         "l_comment" => "comment",
         "l_context" => "context",
         "l_keys" => "keys",
@@ -241,6 +244,12 @@ fn unk_val(name: &str) -> Option<&'static str> {
         "exp" => "1e5",
         "exp_signed" => "-1.5E+3",
         "exp_neg" => "2e-2",
+        "exp_zero" => "0e0",
+        "exp_negzero" => "-0E5",
+        "exp_zero_neg" => "0e-7",
+        "arr_exp_zero" => "[1,0e3]",
+        "obj_exp_zero" => "{\"a\":{\"b\":-0E-2}}",
+        "frac_zero_exp" => "0.0e5",
         "true" => "true",
         "false" => "false",
         "null" => "null",
